@@ -150,7 +150,9 @@ func (g *Gen) instr(st *State, ins ssa.Instruction) {
 		mt := x.Map.Type().Underlying().(*types.Map)
 		m := g.term(x.Map)
 		g.safety("nilmap", st, fmt.Sprintf("(not (= %s null))", m), x.Pos())
+		g.storeFresh = g.isFreshRoot(x.Map)
 		g.mapUpdate(st, mt, m, g.term(x.Key), g.term(x.Value))
+		g.storeFresh = false
 	case *ssa.MakeMap:
 		mt := x.Type().Underlying().(*types.Map)
 		r := g.allocRef(st, "map")
@@ -448,7 +450,11 @@ func (g *Gen) convert(st *State, x *ssa.Convert) {
 			g.setVal(x, wrapTo(v, to))
 		}
 	case fok && tok && fb.Info()&types.IsInteger != 0 && tb.Info()&types.IsFloat != 0:
-		g.setVal(x, fmt.Sprintf("(u2f %s)", v))
+		if _, signed, _ := intBits(from); signed {
+			g.setVal(x, fmt.Sprintf("(i2f %s)", v))
+		} else {
+			g.setVal(x, fmt.Sprintf("(u2f %s)", v))
+		}
 	case fok && tok && fb.Info()&types.IsFloat != 0 && tb.Info()&types.IsInteger != 0:
 		n := g.freshOf("f2i", to)
 		g.sc.emit("(assert (= %s (f2u %s)))", n, v)
